@@ -265,7 +265,7 @@ func runC07(c *Ctx) int {
 		return run.Finish()
 	}
 
-	nStreams := c.Pick(4000, 200000)
+	nStreams := c.Pick(12000, 200000)
 	const batchSize = 250
 	nBatches := (nStreams + batchSize - 1) / batchSize
 	gen := codecGen{MaxBody: 2048, BigBodyPct: 1, BigBody: 100 << 10, LongText: true}
